@@ -105,8 +105,22 @@ func Float64Bits() *rapid.Generator[uint64] {
 	})
 }
 
+// Float32Bits draws float32 bit patterns. Signalling NaNs are quieted (bit 22 set): the
+// protoreflect API carries float32 values as float64, and the float32->float64->float32
+// conversion quiets a signalling NaN on this hardware, so an sNaN payload is not "content" that
+// any API user can store; all other patterns (incl. quiet NaN payloads, -0, subnormals) survive.
 func Float32Bits() *rapid.Generator[uint32] {
 	return rapid.Custom(func(t *rapid.T) uint32 {
+		b := rawFloat32Bits(t)
+		if b&0x7f800000 == 0x7f800000 && b&0x007fffff != 0 {
+			b |= 0x00400000
+		}
+		return b
+	})
+}
+
+func rawFloat32Bits(t *rapid.T) uint32 {
+	{
 		switch rapid.IntRange(0, 3).Draw(t, "f32class") {
 		case 0:
 			return rapid.SampledFrom(f32pool).Draw(t, "pool")
@@ -119,7 +133,7 @@ func Float32Bits() *rapid.Generator[uint32] {
 		default:
 			return rapid.Uint32().Draw(t, "bits")
 		}
-	})
+	}
 }
 
 var validStrings = []string{
